@@ -51,7 +51,69 @@ def run(tier, seed, replay_rows=None):
         t = lst[0]
         ck.observe(key, "%s in %d trace(s) of the real raterun.Runner; first (%s, schedules %s): %s" % (
             key, len(lst), t["name"], t["sched"], json.dumps([[e["k"], e["a"], e["c"]] for e in t["ev"][-14:]])), dict(rows=lst[:3]))
+    steps_grain(ck, rows)
     return ck.finish()
+
+
+def steps_grain(ck, rows):
+    """Trace validation against RateRunner.tla's OWN actions (one action per API call / yield point)."""
+    import copy
+    import os
+    import re
+    by = {}
+    for t in rows:
+        if not t["err"] and 1 <= len(t["sched"]) <= 3:
+            by.setdefault(len(t["sched"]), []).append(t)
+
+    def accepts(cfg, f, n):
+        res = vlib.run_tlc("Trace_RateRunnerSteps", cfg, workers=2, timeout=600, env={"TRACE_FILE": f})
+        if res.violated in ("QuiescentAfterStop", "OnlyAfterStart"):
+            return res, None, {}
+        if not res.ok or res.timed_out:
+            raise vlib.MachineryError("Trace_RateRunnerSteps did not complete: %s\n%s" % (res.summary(), res.output[-1500:]))
+        mi = re.search(r"Finished computing initial states: (\d+) distinct state", res.output)
+        if not mi or int(mi.group(1)) != n:
+            raise vlib.MachineryError("Trace_RateRunnerSteps: %d traces but %s initial states" % (n, mi.group(1) if mi else "?"))
+        acc = {int(m.group(1)) for m in re.finditer(r'<<"ACCEPTED", (\d+)>>', res.output)}
+        stuck = {}
+        for m in re.finditer(r'<<"STUCK", (\d+), (\d+)>>', res.output):
+            stuck[int(m.group(1))] = max(stuck.get(int(m.group(1)), 0), int(m.group(2)))
+        return res, acc, stuck
+
+    with vlib.Scratch("verif-c18s-") as d:
+        for k, lst in sorted(by.items()):
+            f = os.path.join(d, "rr_%d.ndjson" % k)
+            vlib.write_ndjson(f, lst)
+            res, acc, stuck = accepts("Trace_RateRunnerSteps_%d.cfg" % k, f, len(lst))
+            ck.add_tlc("Trace_RateRunnerSteps_%d.cfg" % k, res)
+            ck.traces += len(lst)
+            if acc is None:
+                ck.observe("runner-trace-breaks-" + res.violated, "invariant %s violated while following a real runner trace" % res.violated,
+                           dict(rows=lst[:2]))
+                continue
+            for b in range(1, len(lst) + 1):
+                if b not in acc:
+                    t = lst[b - 1]
+                    pos = stuck.get(b, 0)
+                    ck.observe("runner-trace-not-a-behaviour-of-RateRunner",
+                               "the real runner did something RateRunner.tla does not allow (%s, schedules %s): no action explains event %d: %s" % (
+                                   t["name"], t["sched"], pos + 1, json.dumps([[e["k"], e["a"], e["c"]] for e in t["ev"][max(0, pos - 5):pos + 2]])),
+                               dict(rows=[t]))
+            # binding self-test: a Stop that returns before the goroutine has ended must be rejected
+            muts = []
+            for t in lst:
+                ks = [e["k"] for e in t["ev"]]
+                if "stopret" in ks and "h.done" in ks and len(muts) < 2:
+                    m = copy.deepcopy(t)
+                    m["ev"] = [e for e in m["ev"] if e["k"] != "h.done"]
+                    muts.append(m)
+            if muts:
+                f2 = os.path.join(d, "mut_%d.ndjson" % k)
+                vlib.write_ndjson(f2, muts)
+                r2, acc2, _ = accepts("Trace_RateRunnerSteps_%d.cfg" % k, f2, len(muts))
+                if acc2:
+                    raise vlib.MachineryError("Trace_RateRunnerSteps self-test: corrupted traces accepted: %s" % sorted(acc2))
+                ck.notes["steps_selftest_rejected"] = ck.notes.get("steps_selftest_rejected", 0) + len(muts)
 
 
 def replay(path, seed):
